@@ -17,7 +17,7 @@ DEFAULT_SEED = 20261004
 JOBS = int(os.environ.get("TSG_VERIF_JOBS", "16"))
 
 SAN_ENV = {
-    "asan": {"ASAN_OPTIONS": "abort_on_error=1:detect_leaks=0:allocator_may_return_null=1:handle_abort=1", "UBSAN_OPTIONS": "print_stacktrace=1:halt_on_error=1"},
+    "asan": {"ASAN_OPTIONS": "abort_on_error=1:detect_leaks=0:allocator_may_return_null=1:handle_abort=1:hard_rss_limit_mb=6000", "UBSAN_OPTIONS": "print_stacktrace=1:halt_on_error=1"},
     "tsan": {"TSAN_OPTIONS": "halt_on_error=0:second_deadlock_stack=1:history_size=4"},
     "omptsan": {"TSAN_OPTIONS": "halt_on_error=0:ignore_noninstrumented_modules=1:history_size=4"},
     "omp": {}, "plain": {},
